@@ -1256,6 +1256,38 @@ def rule_o(F):
     own = Own.of(F)
     rts = object_list_types(F)
     cells = 0
+    cell_n = {}
+
+    def cell_key(name):
+        n = cell_n.get(name, 0)
+        cell_n[name] = n + 1
+        return "C05/O/%s%s" % (name, "" if n == 0 else "#%d" % n)
+
+    def is_method(g):
+        return g is not None and g.mir and not g.is_closure and not g.raw.get("impl_trait") and _adt_of(g.raw.get("impl_self")) in rts
+
+    def stands_for(h, src, hkey, depth=0):
+        """A private method that allocates the cell AND owns or releases it on all of its exits is decided once (above); every
+        method of the runtime that obtains its object from it is an instance with the helper's verdict - it receives a
+        registered object, there is nothing left it could leak."""
+        if h.raw.get("vis") == "Public" or depth > 3:
+            return 0
+        n = 0
+        for caller, _bi, ct in call_sites_of(F, h):
+            g = F.fn(caller, required=False)
+            if not is_method(g):
+                continue
+            key = cell_key(g.name)
+            n += 1
+            if src.leak:
+                res.append(bad("C05.O", key, g.loc(ct.get("ln")), "%s creates its object through %s, which allocates the object cell and can return "
+                               "without releasing it or handing it to an owner (see %s): the memory stays charged and is owned by nothing"
+                               % (g.name, h.name, hkey)))
+            else:
+                res.append(ok("C05.O", key, g.loc(ct.get("ln")), "obtains its object from %s, where the cell reaches object_list.push or dealloc "
+                              "on every exit (%s)" % (h.name, hkey), via=h.short))
+            n += stands_for(g, src, key, depth + 1)
+        return n
     for f in F.fns:
         if not f.mir or f.is_closure or f.raw.get("impl_trait") or _adt_of(f.raw.get("impl_self")) not in rts or f.short in FORWARDERS:
             continue
@@ -1268,11 +1300,10 @@ def rule_o(F):
         if not srcs:
             continue
         prim = [s_ for s_ in srcs if s_.listed] or srcs[:1]
-        n_p = n_o = 0
+        n_o = 0
         for s_ in srcs:
             if s_ in prim:
-                key = "C05/O/%s%s" % (f.name, "" if n_p == 0 else "#%d" % n_p)
-                n_p += 1
+                key = cell_key(f.name)
                 what = "the object cell"
                 cells += 1
             else:
@@ -1293,6 +1324,8 @@ def rule_o(F):
                 kinds = sorted(set(k for k, _d, _l in s_.sinks.values()))
                 res.append(ok("C05.O", key, f.loc(ln), "%s reaches object_list.push, an owner that releases it, or dealloc on every exit" % what,
                               sinks=kinds, via=s_.via.short if s_.via else None))
+            if s_ in prim:
+                cells += stands_for(f, s_, key)
     if cells < 5:
         raise AnchorMissing("runtime methods that allocate an object cell (found %d)" % cells)
     return res
